@@ -8,6 +8,7 @@ import (
 	"strings"
 
 	"github.com/ipld/go-ipld-prime/traversal/selector"
+	"github.com/ipld/go-ipld-prime/traversal/selector/builder"
 
 	"verif/mc/ref"
 )
@@ -290,4 +291,57 @@ func Enumerate(a Alphabet, k int) []*Sel {
 		all = append(all, gen(n, false)...)
 	}
 	return all
+}
+
+// BuilderSpec builds the same selector through the library's selector-spec builder (ok=false where
+// the builder has no way to say it: a stop-at condition).
+func (s *Sel) BuilderSpec(ssb builder.SelectorSpecBuilder) (spec builder.SelectorSpec, ok bool) {
+	switch s.Op {
+	case ".":
+		if s.Subset != nil {
+			return ssb.MatcherSubset(s.Subset[0], s.Subset[1]), true
+		}
+		return ssb.Matcher(), true
+	case "@":
+		return ssb.ExploreRecursiveEdge(), true
+	case "all":
+		n, ok := s.Next.BuilderSpec(ssb)
+		return ssb.ExploreAll(n), ok
+	case "i":
+		n, ok := s.Next.BuilderSpec(ssb)
+		return ssb.ExploreIndex(s.Index, n), ok
+	case "r":
+		n, ok := s.Next.BuilderSpec(ssb)
+		return ssb.ExploreRange(s.Start, s.End, n), ok
+	case "f":
+		all := true
+		spec := ssb.ExploreFields(func(efsb builder.ExploreFieldsSpecBuilder) {
+			for _, f := range s.Fields {
+				n, ok := f.S.BuilderSpec(ssb)
+				all = all && ok
+				efsb.Insert(f.Name, n)
+			}
+		})
+		return spec, all
+	case "|":
+		var ms []builder.SelectorSpec
+		all := true
+		for _, m := range s.Members {
+			n, ok := m.BuilderSpec(ssb)
+			all = all && ok
+			ms = append(ms, n)
+		}
+		return ssb.ExploreUnion(ms...), all
+	case "R":
+		if s.StopAt != "" {
+			return nil, false
+		}
+		n, ok := s.Next.BuilderSpec(ssb)
+		lim := selector.RecursionLimitNone()
+		if s.Limit >= 0 {
+			lim = selector.RecursionLimitDepth(s.Limit)
+		}
+		return ssb.ExploreRecursive(lim, n), ok
+	}
+	panic("bad op " + s.Op)
 }
